@@ -194,7 +194,7 @@ def random_script(rnd, fens, movegen, timed_ok=True):
         elif k < 0.14:
             body.append("ucinewgame")
         elif k < 0.2:
-            body.append(rnd.choice(["setoption name Hash value %d" % rnd.choice([1, 2, 3, 16, 0, 64]), "setoption name UCI_Chess960 value true",
+            body.append(rnd.choice(["setoption name Hash value %d" % rnd.choice([1, 2, 3, 16, 0, 0, 64]), "setoption name UCI_Chess960 value true",
                                     "setoption name UCI_Chess960 value false", "setoption name Hash value abc", "setoption name Hash"]))
         elif k < 0.42:
             f = rnd.choice(fens)
@@ -255,6 +255,60 @@ def random_script(rnd, fens, movegen, timed_ok=True):
     return lines, expect_best, ready, deterministic
 
 
+# hand-built edge scenarios and minimised past failures; always run first (both builds, compared with the model)
+CORPUS_SCRIPTS = [
+    ["isready", "setoption name Hash value 0", "go depth 2", "isready", "quit"],
+    ["setoption name Hash value 0", "isready", "go depth 2", "isready", "quit"],
+    ["isready", "setoption name Hash value 1", "go depth 3", "setoption name Hash value 0", "ucinewgame", "go depth 2", "isready"],
+    ["isready", "go wtime 0 btime 0 movestogo 0", "go wtime 1000 btime 1000 movestogo 0", "isready", "quit"],
+    ["isready", "go split 0", "go perft 0", "go split 1", "isready", "quit"],
+    ["isready", "go depth 0", "go nodes 0", "go movetime 0", "isready", "quit"],
+    ["isready", "position startpos moves e1g1", "print", "position startpos moves e8g8 e1c1 e8c8", "history", "isready", "quit"],
+    ["setoption name UCI_Chess960 value true", "isready", "position fen 1r2k2r/8/8/8/8/8/8/KR6 b Bhb - 0 1 moves e8g8", "print", "history", "quit"],
+    ["isready", "position fen 4k3/8/8/8/8/8/8/R3K3 w - - 100 80", "go depth 3", "isready", "quit"],
+    ["isready", "position fen 7n/8/8/8/8/8/K7/2k5 b - - 0 1 moves h8g6 a2a1 g6h8", "go depth 4", "history", "quit"],
+    ["go depth 1"],
+    ["print"],
+    [],
+    ["quit"],
+    ["setoption name Hash value 2", "setoption name UCI_Chess960 value true", "isready", "ucinewgame", "go depth 2", "go", "go foo 1", "go depth", "stop", ""],
+]
+
+
+def run_corpus(res):
+    for sc in CORPUS_SCRIPTS:
+        nbest = 0
+        nready = 0
+        started = False
+        for l in sc:
+            t = l.split()
+            if not started and t[:1] == ["setoption"]:
+                continue
+            started = True
+            if t[:1] == ["quit"]:
+                break
+            if t[:1] == ["isready"]:
+                nready += 1
+            if t[:1] == ["go"] and len(t) >= 3 and t[1] in ("depth", "nodes", "movetime", "wtime"):
+                nbest += 1
+        for b in ("release", "checked"):
+            rc, out, err, to, secs = run_engine(sc, b, timeout=30)
+            res.case("corpus|" + b + "|" + "|".join(sc), True)
+            if to:
+                res.fail("engine hung (no exit within 30 s)", script=sc, build=b)
+                continue
+            if rc != 0 or "panicked" in err:
+                res.fail("engine crashed", script=sc, build=b, exit_status=rc, stderr=err[-300:])
+                continue
+            lines = out.split("\n")
+            if sum(1 for l in lines if l == "readyok") != nready or sum(1 for l in lines if l.startswith("bestmove")) != nbest:
+                res.fail("wrong number of readyok / bestmove lines", script=sc, build=b, observed=(lines.count("readyok"), sum(1 for l in lines if l.startswith("bestmove"))),
+                         expected=(nready, nbest))
+        if all(not re.search(r"movetime|wtime", l) for l in sc):
+            process_compare_one(res, sc)
+    res.count("corpus_scripts", len(CORPUS_SCRIPTS))
+
+
 def run_C15(res):
     rnd = random.Random(res.seed)
     vlib.cargo_build_bins()
@@ -272,8 +326,9 @@ def run_C15(res):
         for _ in range(rnd.randrange(0, 5)):
             toks.append(rnd.choice(["e2e4", "e7e5", "g1f3", "b8c6", "e1g1", "e8g8", "e1c1", "e8c8", "a2a4", "h7h5", "d2d4", "zz", "a7a8q", "e1h1"]))
         return toks
+    run_corpus(res)
     n = 60 if res.tier == "quick" else 1500
-    res.coverage["rule"] = ("random command scripts over the property's vocabulary (incl. the first-loop/second-loop boundary of listen, option changes, zero budgets, "
+    res.coverage["rule"] = ("hand-built edge scripts first; then random command scripts over the property's vocabulary (incl. the first-loop/second-loop boundary of listen, option changes, zero budgets, "
                             "movestogo 0, split/perft 0, garbage tokens, EOF with and without quit) fed to the real binary, optimised and checked build: exit status 0, no "
                             "panic text, one readyok per isready, one bestmove per well-formed search request, termination within 30 s; deterministic scripts also compared "
                             "line by line with the Lean UCI model")
@@ -372,10 +427,19 @@ def run_C16(res):
             pre.insert(0, "isready")
         f = rnd.choice(fens)
         posline = ("position startpos" if f is None else "position fen " + f) + rnd.choice(["", "", " moves e2e4", " moves zz"])
-        hash_mb, frc = options_after(pre)
+        # option changes may also sit between ucinewgame and position (a table that was shrunk, cleared and grown again
+        # must still look freshly cleared)
+        mid = []
+        if rnd.random() < 0.6:
+            if rnd.random() < 0.7:
+                # search the very position that will be queried later, then shrink the table
+                pre = pre + [posline, "go depth %d" % rnd.choice([3, 4, 5]), "setoption name Hash value %d" % rnd.choice([1, 2])]
+            mid = ["setoption name Hash value %d" % rnd.choice([1, 2, 4, 16, 32])] + \
+                  (["setoption name UCI_Chess960 value " + rnd.choice(["true", "false"])] if rnd.random() < 0.3 else [])
+        hash_mb, frc = options_after(pre + mid)
         for newgame in (True, False):
-            queries = ["print", "history", "eval", "go split 1", "go perft 2"] + (["go depth %d" % rnd.choice([1, 2, 3])] if newgame else [])
-            suffix = ["isready"] + (["ucinewgame"] if newgame else []) + [posline] + queries + ["quit"]
+            queries = ["print", "history", "eval", "go split 1", "go perft 2"] + (["go depth %d" % rnd.choice([2, 3, 4])] if newgame else [])
+            suffix = ["isready"] + (["ucinewgame"] if newgame else []) + mid + [posline] + queries + ["quit"]
             fresh = [f"setoption name Hash value {hash_mb}", "setoption name UCI_Chess960 value " + ("true" if frc else "false")] + suffix
             for b in (("release", "checked") if i % 4 == 0 else ("release",)):
                 r1 = run_engine(pre + suffix, b, timeout=40)
